@@ -262,7 +262,7 @@ func shrinkMode(st Stream, a lib.Args, ids string, modelExe string, budget int64
 		os.Exit(3)
 	}
 	defer m.Close()
-	r := NewRunner(10 * budget)
+	r := NewRunner(3 * budget)
 	r.Fresh = true
 	f, _ := os.Create(a.Out)
 	defer f.Close()
@@ -286,18 +286,18 @@ func shrinkMode(st Stream, a lib.Args, ids string, modelExe string, budget int64
 				return false, impl, "MODEL-ERROR"
 			}
 			if impl == "BUDGET" && Conclusive(mo) {
-				return true, impl, mo // the model finishes, the implementation does not (10x step budget)
+				return true, impl, mo // the model finishes, the implementation does not (3x step budget)
 			}
-			return Conclusive(impl) && Conclusive(mo) && impl != mo, impl, mo
+			return Conclusive(impl) && Conclusive(mo) && !SameObs(impl, mo), impl, mo
 		}
 		res := shrunk{ID: id, OrigSize: c.P.Size()}
 		// first with the exact original text
 		impl0 := r.RunSource(c.Src, c.P.FailAt)
 		mo0, _ := m.Eval(c.P)
-		res.Fresh = Conclusive(mo0) && (impl0 == "BUDGET" || (Conclusive(impl0) && impl0 != mo0))
+		res.Fresh = Conclusive(mo0) && (impl0 == "BUDGET" || (Conclusive(impl0) && !SameObs(impl0, mo0)))
 		best := c.P
 		if ok, _, _ := disagree(c.P, style); ok {
-			best, res.Evals = Shrink(c.P, func(p *Program) bool { ok, _, _ := disagree(p, style); return ok }, 600)
+			best, res.Evals = Shrink(c.P, func(p *Program) bool { ok, _, _ := disagree(p, style); return ok }, 300)
 		} else if res.Fresh {
 			// only the original layout shows it: keep the original text
 			res.Source, res.Prefix, res.Impl, res.Model, res.Size = c.Src, c.P.Prefix(), impl0, mo0, c.P.Size()
